@@ -580,6 +580,7 @@ fn reqrep_scenario(seed: u64, log: &mut Vec<String>) -> Result<(), (String, &'st
     let mut late: Vec<Replier> = Vec::new();
     let mut reqs: Vec<Req> = Vec::new();
     let mut counter = 0u64;
+    let mut rejected_once = false; // the replier's sink has refused a single request (too large once tagged)
     let mut seen_by_replier: Vec<(usize, Vec<u8>)> = Vec::new(); // (origin id the replier saw, body)
     let steps = 8 + r.below(40);
     let pump = |ex: &mut Exec<reqrep::Topic<MockErr>>, bound: &mut Replier, seen: &mut Vec<(usize, Vec<u8>)>| -> Result<(), (String, &'static str)> {
@@ -697,6 +698,7 @@ fn reqrep_scenario(seed: u64, log: &mut Vec<String>) -> Result<(), (String, &'st
                             log.push(format!("requestor {i} sends a request that the replier's sink refuses to encode, then a normal one"));
                             pump(&mut ex, &mut bound, &mut seen_by_replier)?;
                             bound.sink.reject_next();
+                            rejected_once = true;
                             reqs[i].stream.push(Ok(Frame::Message(MessagePayload { headers: None, message: Bytes::from_static(b"too-large-once-tagged") })));
                             pump(&mut ex, &mut bound, &mut seen_by_replier)?;
                             bound.sink.0.lock().unwrap().ever_failed = false;
@@ -761,7 +763,7 @@ fn reqrep_scenario(seed: u64, log: &mut Vec<String>) -> Result<(), (String, &'st
         let seen: Vec<&Vec<u8>> = seen_by_replier.iter().filter(|(c, _)| *c == i).map(|(_, b)| b).collect();
         let sent: Vec<&Vec<u8>> = q.sent.iter().collect();
         if seen != sent {
-            let p = if reqs.iter().any(|q| q.gone) { "C02 C04 C08" } else { "C02" };
+            let p = if rejected_once { "C02 C11" } else if reqs.iter().any(|q| q.gone) { "C02 C04 C08" } else { "C02" };
             return Err((format!("requestor {i} sent {} request(s) while a replier was bound; the replier saw {} tagged with its id (a request was lost, duplicated, reordered or attributed to another requestor{})", sent.len(), seen.len(), if p.len() > 3 { "; another requestor had left before" } else { "" }), p));
         }
         let st = q.sink.0.lock().unwrap();
